@@ -707,7 +707,7 @@ pub async fn replay() {
 /// hold the same bytes.
 pub async fn large_exchange() {
     let out_path = arg_or("--out", "-");
-    let sizes: Vec<u64> = arg_or("--sizes", "1,2,3,999,1000,1001,4999,50001").split(',').map(|x| x.parse().unwrap()).collect();
+    let sizes: Vec<u64> = arg_or("--sizes", "1,2,3,999,1000,1001,4999,55556,55557").split(',').map(|x| x.parse().unwrap()).collect();
     datacake_eventual_consistency::verif::set_sync_tick(Duration::from_millis(2));
     let rig = Rig::new(&[1, 2]).await;
     let (a, b) = (&rig.nodes[&1], &rig.nodes[&2]);
